@@ -84,6 +84,25 @@ CHECKS.update({
         technique="property-based testing: rapid generated histories against recording fakes; invariants over the call history"),
 })
 
+CHECKS.update({
+    "C01": dict(level="exploration", design="DESIGN.md section 4 C01",
+        text="A real in-process cluster (jobs.Job, 1..3 workers each with the real operator and source runner, real batching, snapshot store and DKV) over a bounded harness source, with every inter-node call passing a harness gate. A fault plan drawn per case ticks checkpoints, kills workers (heartbeats stop, replacements start) and restarts the job at drawn call counts. The reference handler keeps per (key, split) the number of applied records in state and on every invocation requires the supplied count to equal the record's ordinal; a final checkpoint is read back and must hold exactly the totals. Two genuine defects are open findings (in-place redeploy of surviving workers; see known_findings.json) and excluded by construction.",
+        note="Fault points are drawn, goroutine interleavings between gates are not enumerated. A killed worker models a dead process. A stall of 15 s with live workers and undelivered input is reported as a stuck pipeline.",
+        technique="property-based testing / fault injection: rapid generated inputs and fault plans on a real in-process cluster; per-invocation ordinal oracle"),
+    "C04": dict(level="exploration", design="DESIGN.md section 4 C04",
+        text="The C01 cluster without failures, with drawn batch sizes, read batches, a 1 ms batch time-out and per-call KeyEventBatch latencies so that asynchronous completions arrive out of order. Every operator's incoming stream is recorded at the transport: each record exactly once at the operator owning its key group, per (split,key) in split order, watermarks monotone and below the largest forwarded timestamp, barrier positions consistent with reported split positions, plus the C01 state oracle.",
+        note="Timings are drawn, interleavings not enumerated; watermark assertions are limited to orderings that hold under any delivery lag.",
+        technique="property-based testing: rapid generated inputs/timings on a real in-process cluster; stream-recording oracle"),
+    "C16": dict(level="exploration", design="DESIGN.md section 4 C16",
+        text="(1) Cluster runs with ticks, kills and job restarts: for every source-runner acknowledgement the reported split positions must agree with the barrier position in every operator stream, every split is taken over by at most one reader per splitter start and resumes at the restored checkpoint's position. (2) kinesis.SplitTracker against a shard-lineage model. (3) The real kinesis.SourceSplitter against the repository's fake Kinesis over loopback with generated split/merge/finish/checkpoint-restore histories: no child before its parents are finished, no shard twice, none lost. One genuine defect (a restore forgets blocked shards below the marker) is an open finding, excluded by construction.",
+        note="The Kinesis part needs loopback sockets; discovery runs on 1 ms wall-clock ticks with 6 ms settling per step.",
+        technique="property-based testing: rapid generated histories; stream/assignment oracles; model-based for the tracker"),
+    "C14": dict(level="exploration", design="DESIGN.md section 4 C14",
+        text="Cluster runs in which HandleCreateSavepoint is called at a drawn moment - in half of the cases while a periodic checkpoint is held pending (it must fold into it: same id, no second StartCheckpoint), in a third while a further checkpoint completes during the artifact's assembly. Once the artifact exists everything is stopped and every file of the working storage and of the job's checkpoint directory is deleted; a new job is started from the savepoint URI with the same or another worker count and must process the rest of the input under the exactly-once oracle and end with the correct totals.",
+        note="Job and operator storage share one in-memory file system through a StorageLocation adapter; the real snapshot-store code creates and restores the artifact.",
+        technique="property-based testing: rapid generated runs with savepoint/wipe/restore; exactly-once oracle as the differential"),
+})
+
 PENDING_REASON = "check not built yet in this session; design in DESIGN.md section 4 (no other technique is substituted)"
 
 
